@@ -438,8 +438,8 @@ impl MessageEncoder {
         buffer[8..20].copy_from_slice(msg.transaction_id().as_bytes());
 
         for (position, attr) in msg.attributes().iter().enumerate() {
-            let coded_index = length + MESSAGE_HEADER_SIZE as u16;
-            let (raw_msg, attributes) = buffer.split_at_mut(coded_index.into());
+            let coded_index = usize::from(length) + MESSAGE_HEADER_SIZE;
+            let (raw_msg, attributes) = buffer.split_at_mut(coded_index);
 
             // Encode attribute
             // Check we have room for attribute type and length
@@ -497,11 +497,22 @@ impl MessageEncoder {
             )?;
 
             // Update length taking into account padding
-            length += u16::try_from(attr_size + padding_size).map_err(|error| {
+            let attr_length = u16::try_from(attr_size + padding_size).map_err(|error| {
                 StunEncodeError(StunErrorLevel::Attribute(StunAttributeError {
                     attr_type: Some(attr.attribute_type()),
                     position,
                     error: StunError::from_error(StunErrorType::InvalidParam, Box::new(error)),
+                }))
+            })?;
+            // The message length is a 16 bits field
+            length = length.checked_add(attr_length).ok_or_else(|| {
+                StunEncodeError(StunErrorLevel::Attribute(StunAttributeError {
+                    attr_type: Some(attr.attribute_type()),
+                    position,
+                    error: StunError::new(
+                        StunErrorType::ValueTooLong,
+                        "Message length does not fit in 16 bits",
+                    ),
                 }))
             })?;
             BigEndian::write_u16(&mut raw_msg[2..4], length);
@@ -519,7 +530,7 @@ impl MessageEncoder {
             })?;
         }
 
-        Ok((length + MESSAGE_HEADER_SIZE as u16).into())
+        Ok(usize::from(length) + MESSAGE_HEADER_SIZE)
     }
 }
 
